@@ -49,7 +49,7 @@ var c11TabModes = []string{"exact", "spare", "shared"}
 
 func (c11) ID() string { return "C11" }
 func (c11) Rule() string {
-	return "arguments are built by a deterministic builder from (host kind in {gts.New BasicSequence, seqio.GenBank with NewOrigin not yet decoded, the same after one Bytes() call, seqio.GenBank over &Origin{Buffer: carved slice, Parsed: true}}, buffer shape in {len==cap, spare capacity, sub-slice of a larger residue buffer}, table mode in {len==cap, spare capacity with guard features beyond len, one spare-capacity table shared by host and guest}, lengths, content seed): residues are carved out of a canary buffer (guard bytes before, between len and cap, after); Joined/Ordered/Props (outer and value slices) and the info slices (keywords, references, comments, taxonomy, dblink) carry guard elements beyond len; one Props value and one Joined value are shared between host and guest features. For the NewOrigin kinds the library never sees the carved slice (NewOrigin copies), so the shape only matters for the guest, the WithBytes argument and the gb-raw/basic hosts. A program is 1..4 operations out of {Insert, Embed, Delete, Erase, Slice (forward, negative, wrap-around), Concat (1..3 operands, host or guest first, host twice), Reverse, Rotate, WithInfo, WithFeatures, WithBytes, Copy, Complement, Transcribe, Repair, FeatureSlice.Filter, FeatureSlice.Insert, WithTopology, Segment/Regions.Locate} applied to the same original arguments, followed by a re-application of operation 1. systematic: every operation variant x shape x host kind x table mode as a 1-operation program; every ordered pair of representative variants (all variants in the thorough tier) x shape x host kind; seeded: random arguments (host length<=40, tables<=6 features from the location generator incl. source features, split partial pairs for Repair) and random programs of length 1..4. Oracle: after EVERY operation the deep snapshot of every argument (residues through Bytes()/Len(), bytes between len and cap, guard bytes, every feature's key, location structure incl. nested slices up to cap, qualifiers incl. value slices up to cap, table elements beyond len, info incl. slice capacity, the WithInfo/WithFeatures/WithBytes/FeatureSlice.Insert/Locate arguments) equals the snapshot before it; the result of operation 1 (bytes, Len, features, info through the accessors) reads the same after operations 2..4; the re-applied operation 1 returns an equal result. Origin's lazy decode is not observed (Bytes() is never called on an undecoded host before the first operation; the expected residues are the ones the Origin was built from). A panic is not a purity verdict: arguments are still compared; the C12 Repair panic on a top-level join is skipped, any other panic is reported. non-trivial: some argument has reachable memory beyond its length (buffer shape != len==cap or a spare-capacity table); distinct: canonical case text. The WithFeatures argument is a table in caller order (source feature last) half of the time."
+	return "arguments are built by a deterministic builder from (host kind in {gts.New BasicSequence, seqio.GenBank with NewOrigin not yet decoded, the same after one Bytes() call, seqio.GenBank over &Origin{Buffer: carved slice, Parsed: true}}, buffer shape in {len==cap, spare capacity, sub-slice of a larger residue buffer}, table mode in {len==cap, spare capacity with guard features beyond len, one spare-capacity table shared by host and guest}, lengths, content seed): residues are carved out of a canary buffer (guard bytes before, between len and cap, after); Joined/Ordered/Props (outer and value slices) and the info slices (keywords, references, comments, taxonomy, dblink) carry guard elements beyond len; one Props value and one Joined value are shared between host and guest features. For the NewOrigin kinds the library never sees the carved slice (NewOrigin copies), so the shape only matters for the guest, the WithBytes argument and the gb-raw/basic hosts. A program is 1..4 operations out of {Insert, Embed, Delete, Erase, Slice (forward, negative, wrap-around), Concat (1..3 operands, host or guest first, host twice), Reverse, Rotate, WithInfo, WithFeatures, WithBytes, Copy, Complement, Transcribe, Repair, FeatureSlice.Filter, FeatureSlice.Insert, WithTopology, Segment/Regions.Locate} applied to the same original arguments, followed by a re-application of operation 1. systematic: every operation variant x shape x host kind x table mode as a 1-operation program; every ordered pair of representative variants (all variants in the thorough tier) x shape x host kind; seeded: random arguments (host length<=40, tables<=6 features from the location generator incl. source features, split partial pairs for Repair) and random programs of length 1..4. Oracle: after EVERY operation the deep snapshot of every argument (residues through Bytes()/Len(), bytes between len and cap, guard bytes, every feature's key, location structure incl. nested slices up to cap, qualifiers incl. value slices up to cap, table elements beyond len, info incl. slice capacity, the WithInfo/WithFeatures/WithBytes/FeatureSlice.Insert/Locate arguments) equals the snapshot before it; the result of operation 1 (bytes, Len, features, info through the accessors) reads the same after operations 2..4; the re-applied operation 1 returns an equal result. Origin's lazy decode is not observed (Bytes() is never called on an undecoded host before the first operation; the expected residues are the ones the Origin was built from). A panic is not a purity verdict: arguments are still compared; the C12 Repair panic on a top-level join is skipped, any other panic is reported. non-trivial: some argument has reachable memory beyond its length (buffer shape != len==cap or a spare-capacity table); distinct: canonical case text. The WithFeatures argument is a table in caller order (source feature last) half of the time. /note values of two lines; Qualifier(note, regexp) and Selector(/note=regexp) among the filters."
 }
 
 func (c11) RequiredBuckets(tier string) []string {
@@ -289,7 +289,8 @@ func c11SparePropsKind(r *rand.Rand, label string, kind int) gts.Props {
 		items = append(items, kv{"codon_start", []string{"1"}}, kv{"product", []string{"p " + label}}, kv{"translation", []string{"MKV" + label}},
 			kv{"protein_id", []string{"P" + label}}, kv{"db_xref", []string{"MIM:" + label, "GeneID:" + label}})
 	case 0:
-		items = append(items, kv{"note", []string{"n " + label}})
+		// (a value wrapped over two lines, as long notes are.)
+		items = append(items, kv{"note", []string{"n " + label + " membrane\nprotein"}})
 	case 1:
 		items = append(items, kv{"gene", []string{"z" + label, "g" + label, "m" + label}}, kv{"codon_start", []string{"1"}})
 	case 2:
@@ -847,6 +848,17 @@ func (w *c11World) filter(o c11Op) gts.Filter {
 		return gts.Key("gene")
 	case "not-source":
 		return gts.Not(gts.Key("source"))
+	case "note-regexp":
+		if f, err := gts.Qualifier("note", "membrane protein|n w"); err == nil {
+			return f
+		}
+		return gts.FalseFilter
+	case "selector":
+		f, err := gts.Selector("/note=membrane.protein")
+		if err != nil {
+			return gts.FalseFilter
+		}
+		return f
 	case "within":
 		return gts.Within(o.a, o.b)
 	}
@@ -1387,7 +1399,7 @@ func c11Variants(L int) (all []c11Op, reps []c11Op) {
 	add(true, c11Op{name: "Transcribe"})
 	add(true, c11Op{name: "Repair"})
 	add(true, c11Op{name: "FeatureSlice.Filter", v: "overlap", a: 2, b: 6})
-	for _, v := range []string{"true", "false", "key", "not-source"} {
+	for _, v := range []string{"true", "false", "key", "not-source", "note-regexp", "selector"} {
 		add(false, c11Op{name: "FeatureSlice.Filter", v: v})
 	}
 	add(false, c11Op{name: "FeatureSlice.Filter", v: "within", a: 1, b: L - 1})
@@ -1422,7 +1434,7 @@ func c11RandOp(r *rand.Rand, L int) c11Op {
 	case "WithInfo":
 		o.v = []string{"same", "other"}[r.Intn(2)]
 	case "FeatureSlice.Filter":
-		o.v = []string{"true", "false", "key", "not-source", "within", "overlap"}[r.Intn(6)]
+		o.v = []string{"true", "false", "key", "not-source", "within", "overlap", "note-regexp", "selector"}[r.Intn(8)]
 		o.a = r.Intn(L + 1)
 		o.b = o.a + r.Intn(L-o.a+1)
 	case "FeatureSlice.Insert":
